@@ -151,7 +151,8 @@ class StandardQTomography(QTomography):
         """
         matA = self.calc_matA()
         rank = np.linalg.matrix_rank(matA)
-        size = min(matA.shape)
+        # the estimators invert A^T A: "full rank" means full column rank
+        size = matA.shape[1]
         return size == rank
 
     @abstractmethod
